@@ -92,10 +92,12 @@ class Client:
         self.errmsg: bytes = b""
 
         self.__capabilities: dict[str, str] = {}
+        self.__response_items: List[Tuple[Optional[bytes], bytes]] = []
         self.__respcode_expr = re.compile(rb"(OK|NO|BYE)\s*(.+)?")
         self.__error_expr = re.compile(rb'(\([\w/-]+\))?\s*(".+")')
         self.__size_expr = re.compile(rb"\{(\d+)\+?\}")
         self.__active_expr = re.compile(rb"ACTIVE", re.IGNORECASE)
+        self.__quoted_expr = re.compile(rb'"((?:[^"\\]|\\.)*)"\s*(.*)$')
 
     def __del__(self):
         if self.sock is not None:
@@ -206,6 +208,8 @@ class Client:
         nblines is provided, code and data can be equal to None.
         """
         resp, code, data = (b"", None, None)
+        # what was received, item by item: (literal content or None, line)
+        self.__response_items = []
         cpt = 0
         while True:
             try:
@@ -215,13 +219,18 @@ class Client:
                 data = inst.data
                 break
             except Literal as inst:
-                resp += self.__read_block(inst.value)
+                block = self.__read_block(inst.value)
+                resp += block
+                line = b""
                 if not resp.endswith(CRLF):
-                    resp += self.__read_line() + CRLF
+                    line = self.__read_line()
+                    resp += line + CRLF
+                self.__response_items.append((block, line))
                 continue
             if not len(line):
                 continue
             resp += line + CRLF
+            self.__response_items.append((None, line))
             cpt += 1
             if nblines != -1 and cpt == nblines:
                 break
@@ -666,15 +675,19 @@ class Client:
             return None
         ret: List[str] = []
         active_script: str = None
-        for l in listing.splitlines():
-            if self.__size_expr.match(l):
-                continue
-            m = re.match(rb'"([^"]+)"\s*(.+)', l)
-            if m is None:
-                ret += [l.strip(b'"').decode("utf-8")]
-                continue
-            script = m.group(1).decode("utf-8")
-            if self.__active_expr.match(m.group(2)):
+        for block, line in self.__response_items:
+            if block is not None:
+                # name sent as a literal, the rest of the line follows
+                script = block.decode("utf-8")
+                marker = line
+            else:
+                m = self.__quoted_expr.match(line)
+                if m is None:
+                    ret += [line.strip(b'"').decode("utf-8")]
+                    continue
+                script = re.sub(rb"\\(.)", rb"\1", m.group(1)).decode("utf-8")
+                marker = m.group(2)
+            if self.__active_expr.match(marker.strip()):
                 active_script = script
                 continue
             ret += [script]
@@ -696,9 +709,17 @@ class Client:
             "GETSCRIPT", [name.encode("utf-8")], withcontent=True
         )
         if code == "OK":
+            if not self.__response_items:
+                return ""
+            block, line = self.__response_items[0]
+            if block is None:
+                # script sent as a quoted string
+                m = self.__quoted_expr.match(line)
+                if m is not None:
+                    content = re.sub(rb"\\(.)", rb"\1", m.group(1))
+            else:
+                content = block
             lines = content.splitlines()
-            if self.__size_expr.match(lines[0]) is not None:
-                lines = lines[1:]
             return "\n".join([line.decode("utf-8") for line in lines])
         return None
 
